@@ -393,13 +393,20 @@ class Monitor:
                         bad("differs-after-key-change|%s" % row, "after the key file was changed and the configuration saved again, %s reloads differently: %s" % (row, diffs[:3]))
                 except Exception as exc:  # noqa
                     bad("raises-after-key-change|%s" % row, "after the key file was changed: %r" % (exc,))
-            if not opts and ok:
-                # through real files
+            if ok:
+                # through real files, with the same format options on both sides
                 path = os.path.join(self.tmp, "saved." + fmt)
                 try:
-                    cfg.save(path, fmt)
+                    cfg.save(path, fmt, **opts)
                     dst = self.fresh()
-                    dst.load(path, fmt)
+                    if opts:        # Config.load takes no format options: read the file and decode it with them
+                        with open(path, "rb") as fh:
+                            written = fh.read()
+                        if "secure" not in self.leaf and written != cfg.dumps(fmt, **opts):
+                            bad("file-ignores-options|%s" % row, "save(path, %r, **%r) wrote something else than dumps with the same options" % (fmt, opts))
+                        dst.loads(written, fmt, **opts)
+                    else:
+                        dst.load(path, fmt)
                     diffs = compare(orig, cc.asdict(dst), self.spec)
                     if diffs:
                         bad("file-differs|%s" % row, "%s save/load changed %s" % (row, diffs[:3]))
